@@ -69,6 +69,7 @@ type DirectConnection struct {
 	closed                   sync2.AtomicBool
 	capabilityConnectToMySQL uint32
 	moreRowExists            bool
+	rowsInResult             int // rows read so far of the current result set, across FetchMoreRows chunks
 	handshakeTimeout         time.Duration
 }
 
@@ -980,6 +981,7 @@ func (dc *DirectConnection) readResultSet(data []byte, binary bool, maxRows int)
 		return nil, err
 	}
 
+	dc.rowsInResult = 0
 	if err := dc.readResultRows(result, binary, maxRows); err != nil {
 		return nil, err
 	}
@@ -1059,7 +1061,8 @@ func (dc *DirectConnection) readResultRows(result *mysql.Result, isBinary bool, 
 		}
 
 		result.RowDatas = append(result.RowDatas, data)
-		if maxRows > 0 && len(result.RowDatas) > maxRows {
+		dc.rowsInResult++
+		if maxRows > 0 && dc.rowsInResult > maxRows {
 			if err := dc.drainResults(); err != nil {
 				dc.pkgErr = fmt.Errorf("%v", sqlerr.ErrInvalidPacket)
 				return fmt.Errorf("%v %d, drain error: %v", sqlerr.ErrRowsLimitExceeded, maxRows, err)
